@@ -27,6 +27,7 @@ def check(repo, tier="quick"):
     res.rule("C09.c", "current_picture['pic_num'] is stored from state['picture_number'] and not overwritten")
     res.rule("C09.e", "component dimensions: subband_width/subband_height (not pinned to a listing) describe a dyadic pyramid: the padding unit equals the level-0 divisor, level 1 has the DC band's size, each further level halves the divisor in the directions its transform acts in, and the horizontal-only / 2D split is at dwt_depth_ho")
     res.rule("C09.g", "padding removal: delete_rows_after(a, k) deletes a[k:] and delete_columns_after(a, k) deletes row[k:] of every row, unconditionally or behind a guard on the matching dimension only (height / len(a) for rows, width / len(a[0]) for columns)")
+    res.rule("C09.h", "the pinned pseudocode is nothing but the pseudocode: functions of vc2_conformance.pseudocode.* that are pinned to the standard contain no not-in-spec statement at all, except the reviewed invocation of the output callback at the end of picture_decode -- a shortcut added inside a `## Begin not in spec` region of clip, idwt, offset, ... escapes the repository's equivalence test and changes decoded sizes or values for the inputs it short-cuts")
     res.rule("C09.f", "sample ranges: every function in the decoder's reach computes with exact integers (no true division, math.*, float(), round() or float constants), so bit depths and clipping bounds are exact at any signal range")
     res.rule("C09.d", "parse_sequence calls picture_decode exactly after picture_parse and under fragmented_picture_done after fragment_parse; fragmented_picture_done is set exactly when the received slice count reaches slices_x * slices_y")
 
@@ -126,6 +127,8 @@ def check(repo, tier="quick"):
     rule_f(repo, res)
     rule_g(repo, res)
     res.floor("C09.g", 2)
+    rule_h(repo, res, "C09.h")
+    res.floor("C09.h", 30)
     res.floor("C09.e", 10)
     res.floor("C09.f", 50)
     res.floor("C09.a", 1)
@@ -319,3 +322,31 @@ def rule_g(repo, res):
             g = isinstance(s, ast.If) and not s.orelse and len(s.body) == 1 and isinstance(s.body[0], ast.Return) and s.body[0].value is None and norm(s.test) in [norm(ast.parse(x % env).body[0].value) for x in guards]
             ok = ok and g
         res.check(ok, "C09.g", "%s:deletes-from-k" % fname, "%s:%s" % (m.rel, fname), "%s must end with `%s`, preceded at most by an early return when the *matching* dimension is already <= %s (found: %s)" % (fname, (core_pat % env).replace("\n    ", " "), k, "; ".join(short(x, 50) for x in body)), by="deletes from index %s on, no guard on the other dimension" % k)
+
+
+PSEUDOCODE_FREE_SANCTIONED = {
+    ("picture_decode", "if '_output_picture_callback' in state: state['_output_picture_callback'](state['current_picture'], state['video_parameters'], state['picture_coding_mode'])"): "hands the finished picture to the caller; reads only, after all decoding steps (order decided by C09.a)",
+}
+
+
+def rule_h(repo, res, rid):
+    n = 0
+    for name, m in sorted(repo.modules.items()):
+        if not name.startswith("vc2_conformance.pseudocode."):
+            continue
+        for fname, fn in sorted(m.funcs.items()):
+            if not repo.is_pinned_function(fn):
+                continue
+            n += 1
+            free = []
+            for b in ast.walk(fn):
+                if isinstance(b, ast.stmt) and b is not fn and b.lineno in m.free_lines:
+                    # outermost free statements only
+                    p = getattr(b, "_parent", None)
+                    if isinstance(p, ast.stmt) and p is not fn and p.lineno in m.free_lines:
+                        continue
+                    free.append(b)
+            bad = [short(b, 70) for b in free if (fname, norm(b)) not in PSEUDOCODE_FREE_SANCTIONED]
+            res.check(not bad, rid, "pinned-pseudocode-only:%s.%s" % (name.split(".")[-1], fname), "%s:%s" % (m.rel, fname), "%s is pinned to the standard's pseudocode but contains statement(s) outside it (%s): they are invisible to the repository's equivalence test and each must be reviewed before it can be trusted not to change the decoded result" % (fname, "; ".join(bad[:3])), by="no not-in-spec statement" if not free else "reviewed: output callback only")
+    if n < 30:
+        raise AnalysisError("only %d pinned pseudocode functions found" % n)
